@@ -41,6 +41,14 @@ type syncConn struct {
 	mu sync.Mutex
 }
 
+// Write serialises what is written through the connection itself - the replies to the client's
+// ping and close frames come from the reader - with the text frames
+func (c *syncConn) Write(b []byte) (int, error) {
+	c.mu.Lock()
+	defer c.mu.Unlock()
+	return c.Conn.Write(b)
+}
+
 func (c *syncConn) writeServerText(b []byte) error {
 	c.mu.Lock()
 	defer c.mu.Unlock()
